@@ -1,5 +1,123 @@
+"""C04: recorded files are well-formed GUPPI RAW and all readers agree on framing.
+M: RawFiles_MC (padding rule, reader mechanisms = structural truth for every listing) + Backend_MC (blocks per file,
+   PKTIDX step).   R: spec-generated directories read by the library's readers; spec-generated recordings (files,
+   PKTIDX).   T: real recordings with varied header dictionaries parsed by the independent parser and validated by
+   RawFilesTrace.tla."""
+import os
+
+import numpy as np
+
+from .. import tlc, trace
+from ..adapters import rawfiles as ad
 from . import c02
 
 
+def readers_leg(ctx, work):
+    res = tlc.run("RawFiles", "RawFiles_MC.cfg", ctx.outdir, workers=8, coverage=True)
+    ctx.add_tlc(res, "RawFiles_MC", "M")
+    ctx.tlc_violation(res, "RawFiles", "RawFiles_MC")
+    if res.coverage.get("Query", (0, 0))[1] == 0:
+        raise RuntimeError("vacuity: Query never taken")
+    cfg = tlc.cfg_with("RawFiles_Gen.cfg", {}, ctx.outdir)
+    if ctx.quick():
+        res = tlc.run("RawFiles", cfg, ctx.outdir, workers=4, simulate=300, depth=5, seed=ctx.seed)
+    else:
+        res = tlc.run("RawFiles", cfg, ctx.outdir, workers=1)
+    ctx.add_tlc(res, "RawFiles_Gen", "R-generate")
+    if not res.emitted:
+        raise RuntimeError("RawFiles_Gen produced nothing")
+    seen = set()
+    for exp in res.emitted:
+        d = exp["dir"]
+        key = (d["cards"], d["dio"], d["blocsize"], d["bpf"], d["nfiles"], d["last"], tuple(exp["listing"]))
+        if key in seen:
+            continue
+        seen.add(key)
+        ctx.mark(("readers",) + key)
+        if len(ctx.samples) < 1:
+            ctx.sample({"leg": "R-readers", "expected": exp})
+        div = ad.check_readers(exp, work)
+        ctx.traces += 1
+        ctx.steps += 3 + d["nfiles"]
+        if div is not None:
+            args = dict(d)
+            args.update({"action": div.field, "listing_sorted": list(exp["listing"]) == sorted(exp["listing"]),
+                         "aligned": (80 * d["cards"]) % 512 == 0})
+            ctx.violation("RawFiles", "reader:" + div.field, args,
+                          {"expected": div.expected, "observed": div.observed, "query": exp})
+
+
+def writer_cases(ctx, n):
+    rng = np.random.default_rng(ctx.seed + 404)
+    cases = []
+    for k in range(n):
+        B = int(rng.choice([8, 16]))
+        nch = int(rng.integers(1, B // 2 + 1))
+        nch = min(nch, 3)
+        cases.append({
+            "rate": float(rng.choice([1024.0, 3e9, 187.5e6, 2.5e6])), "B": B, "taps": int(rng.choice([2, 4])),
+            "U": int(rng.integers(1, 4)), "S": int(rng.integers(1, 4)), "pols": int(rng.choice([1, 2])),
+            "bits": int(rng.choice([4, 8])), "nant": int(rng.choice([1, 1, 2])), "nch": nch,
+            "start_chan": int(rng.integers(0, B // 2 - nch + 1)), "ascending": bool(rng.integers(2)),
+            "fch1": float(rng.choice([0.0, 6e9, 1.4204e9])), "blocks": int(rng.integers(1, 5)), "bpf": int(rng.integers(1, 4)),
+            "extra": k % 40,                      # sweeps every header length modulo 32 cards
+            "override": bool(rng.integers(3) == 0), "template": bool(rng.integers(2)),
+            "directio": [None, 0, 1, "1", 1][int(rng.integers(5))], "pkt0": [0, 0, 4096][int(rng.integers(3))],
+            "seed": int(rng.integers(1 << 30)),
+        })
+    return cases
+
+
+def writer_leg(ctx, work):
+    cases = writer_cases(ctx, ctx.pick(160, 2000))
+    traces, details = [], []
+    for c in cases:
+        try:
+            ev, det = ad.record_case(c, work)
+        except Exception as e:  # a raising record() is a divergence of its own
+            ev, det = [{"e": "Begin", "blocsize": 0, "blocks": 0, "bpf": 1, "pkt0": 0, "spb": 0},
+                       {"e": "Raised", "why": "%s: %s" % (type(e).__name__, str(e)[:150])}], []
+        traces.append(ev)
+        details.append(det)
+    ok, rejects, res = trace.validate("RawFilesTrace", "RawFilesTrace.cfg", traces, ctx.outdir)
+    ctx.add_tlc(res, "RawFilesTrace (%d recordings)" % len(traces), "T-validate")
+    ctx.traces += len(traces)
+    ctx.steps += sum(len(t) for t in traces)
+    ctx.sample({"leg": "T-writer", "case": cases[0], "trace": traces[0][:3]})
+    cards_mod = set()
+    for c, t in zip(cases, traces):
+        for ev in t:
+            if ev["e"] == "Block":
+                cards_mod.add(ev["cards"] % 32)
+                break
+        ctx.mark(("writer", c["extra"], c["template"], str(c["directio"]), c["blocks"], c["bpf"], c["nant"], c["override"]))
+    ctx.notes["header_lengths_mod_32_seen"] = sorted(cards_mod)
+    for rj in rejects:
+        c = cases[rj["reject"] - 1]
+        t = traces[rj["reject"] - 1]
+        at = rj["at"]
+        ev = t[at - 1] if at - 1 < len(t) else {"e": "missing"}
+        args = {k: (v if not isinstance(v, float) else v) for k, v in c.items()}
+        args.update({"action": "Record", "why": sorted(rj["why"]), "event": ev.get("e"),
+                     "aligned": (ev.get("cards", 1) * 80) % 512 == 0 if "cards" in ev else None,
+                     "directio_on": ev.get("directio")})
+        det = details[rj["reject"] - 1]
+        blk = at - 2
+        ctx.violation("RawFiles", "trace-reject:" + ",".join(sorted(rj["why"])), args,
+                      {"case": c, "rejected_event": ev, "position": at, "why": rj["why"],
+                       "owned_bad/user_bad": det[blk] if 0 <= blk < len(det) else None, "trace_head": t[:3]})
+
+
 def run(ctx):
-    c02.run_for(ctx, "C04", check_bytes=False)
+    ctx.assume("independent GUPPI framing parser/writer in /verif/harness/guppi.py; directory listing order substituted "
+               "through raw_utils.glob.glob; header values compared at 1e-12 relative (card text formatting)")
+    work = os.path.join(ctx.outdir, "raw04")
+    os.makedirs(work, exist_ok=True)
+    readers_leg(ctx, work)
+    writer_leg(ctx, work)
+    c02.run_for(ctx, "C04", num_quick=80, num_thorough=1500, check_bytes=False)
+    ctx.notes["rule"] = ("readers: directories (cards 16..79 = every residue mod 32 twice, DIRECTIO absent/0/1, 1-3 files, "
+                         "1-3 blocks per file, last partial, every listing permutation) generated by TLC; writer: real "
+                         "recordings with 0..39 extra user cards, owned-field overrides, template on/off, DIRECTIO "
+                         "absent/0/1/'1', 1-4 blocks, 1-3 blocks per file, antenna/array, validated as traces; plus the "
+                         "Backend configurations of C02 (files, PKTIDX); distinct = distinct configuration tuples")
